@@ -1,7 +1,7 @@
 // Package simsync is a drop-in for the parts of package sync that
 // internal/outputstream uses (RWMutex, Mutex, Cond), under a cooperative
 // scheduler owned by the simulator: exactly one task runs at a time and every
-// Lock/RLock/Cond.Wait is a point where the scheduler (driven by the scenario's
+// Lock/RLock/Unlock/RUnlock/Cond.Wait is a point where the scheduler (driven by the scenario's
 // explicit choice list) decides who runs next.
 //
 // Soundness: every execution produced here is an execution the real program can
@@ -46,7 +46,14 @@ type Task struct {
 	// Point is the label of the yield point the task is parked at.
 	Point string
 	sched *Sched
+	// number of write locks the task holds
+	wdepth int
 }
+
+// OnWriteRelease, if set, is called on the task's goroutine when a task has released its last write lock,
+// before the task yields: what the task did under the lock is in effect from this instant (the harness
+// commits the corresponding model mutation here).
+var OnWriteRelease func(t *Task)
 
 func (t *Task) Done() bool    { return t.state == stDone }
 func (t *Task) Blocked() bool { return t.state == stBlocked }
@@ -247,6 +254,7 @@ func (m *RWMutex) Lock() {
 	}
 	m.writer = true
 	m.owner = t.Name
+	t.wdepth++
 }
 
 func (m *RWMutex) Unlock() {
@@ -256,6 +264,17 @@ func (m *RWMutex) Unlock() {
 	m.writer = false
 	if active != nil {
 		active.wake(m)
+	}
+	// a thread may be descheduled right after it released a lock (what it computed under the lock can be
+	// stale by the time it uses it)
+	if t := cur(); t != nil {
+		if t.wdepth > 0 {
+			t.wdepth--
+		}
+		if t.wdepth == 0 && OnWriteRelease != nil {
+			OnWriteRelease(t)
+		}
+		t.park(stReady, "Unlock", "")
 	}
 }
 
@@ -282,6 +301,9 @@ func (m *RWMutex) RUnlock() {
 	m.readers--
 	if m.readers == 0 && active != nil {
 		active.wake(m)
+	}
+	if t := cur(); t != nil {
+		t.park(stReady, "RUnlock", "")
 	}
 }
 
